@@ -16,3 +16,8 @@ mod upgrade;
 pub mod util;
 /// Start and restart the worker UNIX processes
 mod worker;
+
+/// Verification harness only: the entry point an exec'd worker runs (`sozu worker --fd ..`), re-exported
+/// so that a deterministic simulator can run it on a thread standing in for the child process.
+#[cfg(feature = "verif-hooks")]
+pub use worker::begin_worker_process;
